@@ -144,7 +144,7 @@ def run_family(chk, pid, plan, special_cases=()):
         if r["item"] is not None:
             items.append(r["item"])
             owners.append(r)
-    res = common.coq_eval_sharded(pid.lower() + "_ex", xd.EX_HEADER, items, per_file=12, timeout=1500) if items else []
+    res = common.coq_eval_sharded(pid.lower() + "_ex", xd.EX_HEADER, items, timeout=1500, balance=True) if items else []
     diverged = []
     for r, v in zip(owners, res):
         if v == "Agree":
